@@ -59,25 +59,27 @@ enum Case {
     Insensitive,
 }
 
-fn starts_with(bytes: &Bytes, starts: &Bytes, case: Case) -> bool {
-    if bytes.len() < starts.len() {
-        return false;
-    }
+/// Lowercases one item of `Chars` (a character can fold to several characters).
+fn fold(c: std::result::Result<char, u8>) -> impl Iterator<Item = std::result::Result<char, u8>> {
+    let (lower, invalid) = match c {
+        Ok(c) => (Some(c.to_lowercase()), None),
+        Err(byte) => (None, Some(Err(byte))),
+    };
+    lower.into_iter().flatten().map(Ok).chain(invalid)
+}
 
+fn starts_with(bytes: &Bytes, starts: &Bytes, case: Case) -> bool {
     match case {
-        Case::Sensitive => starts[..] == bytes[0..starts.len()],
-        Case::Insensitive => Chars::new(starts)
-            .zip(Chars::new(bytes))
-            .all(|(a, b)| match (a, b) {
-                (Ok(a), Ok(b)) => {
-                    if a.is_ascii() && b.is_ascii() {
-                        a.eq_ignore_ascii_case(&b)
-                    } else {
-                        a.to_lowercase().zip(b.to_lowercase()).all(|(a, b)| a == b)
-                    }
-                }
-                _ => false,
-            }),
+        Case::Sensitive => bytes.len() >= starts.len() && starts[..] == bytes[0..starts.len()],
+        // Folding changes byte lengths (`\u{212a}` -> `k`) and character counts
+        // (`\u{130}` -> `i\u{307}`), so the folded streams are compared and only `starts`
+        // has to be exhausted.
+        Case::Insensitive => {
+            let mut bytes = Chars::new(bytes).flat_map(fold);
+            Chars::new(starts)
+                .flat_map(fold)
+                .all(|a| matches!((a, bytes.next()), (Ok(a), Some(Ok(b))) if a == b))
+        }
     }
 }
 
